@@ -199,6 +199,10 @@ class Builder:
         """Create a qubit register."""
         name, size = sexpression.args
         size = self.build(size, context, gate_context)  # Resolve let-constants
+        if isinstance(size, bool) or not isinstance(
+            size, (int, float, Constant, Parameter)
+        ):
+            raise JaqalError(f"Register {name} cannot have size {size}")
         return Register(name, size)
 
     def build_map(self, sexpression, context, gate_context):
